@@ -3,8 +3,8 @@
 package main
 
 import (
-	"os"
 	"fmt"
+	"os"
 	"strings"
 	"time"
 
@@ -176,13 +176,13 @@ func (b *byzCtl) act(g *gnet) {
 }
 
 type simResult struct {
-	g        *gnet
-	decided  bool
-	desc     map[string]any
-	byzVotes int
+	g           *gnet
+	decided     bool
+	desc        map[string]any
+	byzVotes    int
 	roundAtStab uint64 // highest round of an honest participant when the network became timely
-	deadlock bool     // ended with undecided honest participants, nothing in flight and no alarm pending
-	budget   bool     // step budget exhausted (inconclusive)
+	deadlock    bool   // ended with undecided honest participants, nothing in flight and no alarm pending
+	budget      bool   // step budget exhausted (inconclusive)
 }
 
 // one adversarial multi-node run of a single instance
@@ -353,6 +353,101 @@ func splitBrainScenario(r *rng, viol func(clause, sig, detail string)) *simResul
 	}
 	return &simResult{g: g, decided: decided, byzVotes: bv, roundAtStab: roundAtStab, deadlock: dl && !decided, budget: !decided && !dl,
 		desc: map[string]any{"scenario": "split-brain at the quorum boundary", "nodes": 3, "powers": pw, "byzantine": byz, "votes": len(g.votes), "byz_votes": bv, "max_round": g.maxRound(), "all_decided": decided}}
+}
+
+// replayed signatures: the faulty participant holds < 1/3 of the power and signs only with its own key, but it re-uses
+// SIGNATURES IT HAS OBSERVED: once every participant has validated the genuine QUALITY message of every honest sender, it
+// hands each honest target messages naming an honest participant as sender and carrying that participant's observed
+// signature (and ticket) over a DIFFERENT vote -- DECIDE / COMMIT / PREPARE for a fork chosen per target, with bogus or
+// observed justifications.  Honest signatures cannot be forged, so every one of these must be rejected; if any layer that
+// remembers validated messages identifies a message by less than its full content, targets decide different forks.
+func signatureReplayScenario(r *rng, viol func(clause, sig, detail string)) *simResult {
+	n := 4 + r.intn(2)
+	pw := make([]int64, n)
+	byz := make([]bool, n)
+	for i := range pw {
+		pw[i] = int64(10 + r.intn(5))
+	}
+	bi := r.intn(n)
+	byz[bi] = true
+	pw[bi] = 5 // strictly less than a third of the total
+	base := mkTipset(0, "base")
+	mk := func(tag string, k int) *gpbft.ECChain {
+		ts := []*gpbft.TipSet{base}
+		for i := 1; i <= k; i++ {
+			ts = append(ts, mkTipset(int64(i), fmt.Sprintf("%s%d", tag, i)))
+		}
+		return &gpbft.ECChain{TipSets: ts}
+	}
+	common := mk("c", 1+r.intn(2))
+	inputs := make([]*gpbft.ECChain, n)
+	for i := range inputs {
+		inputs[i] = common
+	}
+	cfg := gnetCfg{n: n, powers: pw, byz: byz, inputs: inputs, delta: 2 * time.Second}
+	g := newGnet(r, cfg, viol)
+	// COMMIT and DECIDE traffic between honest participants is slow at first, so that nobody has decided when the
+	// forgeries arrive; QUALITY and PREPARE flow normally (every target validates a genuine message of every sender)
+	g.slow = func(from, to int, msg *gpbft.GMessage) bool {
+		return msg.Vote.Phase == gpbft.COMMIT_PHASE || msg.Vote.Phase == gpbft.DECIDE_PHASE
+	}
+	for i := range g.nodes {
+		g.start(i)
+	}
+	g.run(40*n, nil)
+	// observed signatures of honest senders
+	type obs struct{ sig, ticket []byte }
+	seen := map[gpbft.ActorID][]obs{}
+	for _, v := range g.votes {
+		if v.honest {
+			seen[v.msg.Sender] = append(seen[v.msg.Sender], obs{v.msg.Signature, v.msg.Ticket})
+		}
+	}
+	bv := 0
+	signers := make([]uint64, 0, n)
+	for i := 0; i < n; i++ {
+		signers = append(signers, uint64(i))
+	}
+	for _, target := range g.nodes {
+		if !target.honest {
+			continue
+		}
+		fork := mk(fmt.Sprintf("fork%d-", target.idx), 1+r.intn(2))
+		for _, ph := range []gpbft.Phase{gpbft.DECIDE_PHASE, gpbft.COMMIT_PHASE, gpbft.PREPARE_PHASE} {
+			for _, sender := range g.nodes {
+				if !sender.honest || sender.idx == target.idx || len(seen[sender.id]) == 0 {
+					continue
+				}
+				ob := seen[sender.id][r.intn(len(seen[sender.id]))]
+				m := &gpbft.GMessage{Sender: sender.id,
+					Vote:      gpbft.Payload{Instance: g.instance, Round: 0, Phase: ph, SupplementalData: g.supp, Value: fork},
+					Signature: ob.sig, Ticket: ob.ticket}
+				switch ph {
+				case gpbft.DECIDE_PHASE:
+					m.Justification = &gpbft.Justification{Vote: gpbft.Payload{Instance: g.instance, Round: 0, Phase: gpbft.COMMIT_PHASE, SupplementalData: g.supp, Value: fork},
+						Signers: bitfield.NewFromSet(signers), Signature: []byte("not an aggregate signature")}
+				case gpbft.COMMIT_PHASE:
+					m.Justification = &gpbft.Justification{Vote: gpbft.Payload{Instance: g.instance, Round: 0, Phase: gpbft.PREPARE_PHASE, SupplementalData: g.supp, Value: fork},
+						Signers: bitfield.NewFromSet(signers), Signature: []byte("not an aggregate signature")}
+				}
+				bv++
+				g.pool = append(g.pool, &pendingMsg{to: target.idx, msg: m, from: bi, ready: g.now})
+			}
+		}
+	}
+	g.run(200*n, nil)
+	g.stabilised = true
+	roundAtStab := g.maxRound()
+	decided := g.run(60000, nil)
+	g.checkDecisions()
+	for _, nd := range g.nodes {
+		if nd.honest && nd.decided != nil && !nd.decided.Vote.Value.Eq(common) {
+			viol("every decided value is a prefix of the chain proposed by at least one honest participant", "c02-decided-foreign-value",
+				fmt.Sprintf("participant %d decided %s, no honest participant proposed it (all proposed %s)", nd.idx, nd.decided.Vote.Value, common))
+		}
+	}
+	return &simResult{g: g, decided: decided, byzVotes: bv, roundAtStab: roundAtStab,
+		desc: map[string]any{"scenario": "replayed honest signatures on forged votes", "nodes": n, "powers": pw, "byzantine": byz, "forged_messages": bv, "max_round": g.maxRound(), "all_decided": decided}}
 }
 
 // byte-scale storage powers (hundreds to thousands of TiB, as on mainnet): the 16-bit scaled powers that every quorum tally
@@ -674,7 +769,7 @@ func foreignSwayScenario(r *rng, viol func(clause, sig, detail string)) *simResu
 				pwr += g.pt.ScaledPower[i]
 			}
 		}
-		if !gpbft.IsStrongQuorum(pwr, g.pt.ScaledTotal) {
+		if !indepStrong(pwr, g.pt.ScaledTotal) {
 			return nil
 		}
 		bf := bitfield.New()
@@ -799,7 +894,9 @@ func runSpecSim(o *out, r *rng, thorough bool, pid string) {
 			local = append(local, violation{Clause: clause, Signature: sig, Detail: detail})
 		}
 		var res *simResult
-		if i%6 == 5 {
+		if i%8 == 3 {
+			res = signatureReplayScenario(r, viol)
+		} else if i%6 == 5 {
 			res = splitBrainScenario(r, viol)
 		} else if i%12 == 4 {
 			res = largePowerScenario(r, viol)
@@ -869,7 +966,9 @@ func runSpecSim(o *out, r *rng, thorough bool, pid string) {
 		}
 		for i := 0; i < hp; i++ {
 			var local []violation
-			viol := func(clause, sig, detail string) { local = append(local, violation{Clause: clause, Signature: sig, Detail: detail}) }
+			viol := func(clause, sig, detail string) {
+				local = append(local, violation{Clause: clause, Signature: sig, Detail: detail})
+			}
 			n := 3 + r.intn(6)
 			powers := make([]int64, n)
 			for k := range powers {
